@@ -107,6 +107,20 @@ def bag_heap_axioms(formulas):
                                                         z3.Not(H.lt(P, z3.Select(ts, i), z3.Select(rf, i), z3.Select(ts, 0), z3.Select(rf, 0)))),
                                         patterns=[z3.Select(rf, i)])))
         out.append(z3.Implies(n <= 0, app))
+    # frame: Heap depends on the precedence array only at the members of the list
+    heaps = [a for a in collect_apps(formulas, "Heap") if all(_is_ground(a.arg(k)) for k in range(4))]
+    done = set()
+    for a in heaps:
+        for b in heaps:
+            if a.get_id() >= b.get_id() or (a.get_id(), b.get_id()) in done:
+                continue
+            if all(a.arg(k).get_id() == b.arg(k).get_id() for k in range(3)) and a.arg(3).get_id() != b.arg(3).get_id():
+                done.add((a.get_id(), b.get_id()))
+                i = z3.Int("hf!ax")
+                rf, n = a.arg(1), a.arg(2)
+                same = z3.ForAll([i], z3.Implies(z3.And(i >= 0, i < n),
+                                                 z3.Select(a.arg(3), z3.Select(rf, i)) == z3.Select(b.arg(3), z3.Select(rf, i))))
+                out.append(z3.Implies(same, a == b))
     return out
 
 
@@ -416,6 +430,10 @@ def contains(ex, st, cont, x, node):
             return any(rs)
         return z3.Or(*[ty.to_bool(r) for r in rs])
     if isinstance(cont, ty.MapV):
+        if isinstance(x, ty.OptV) and not isinstance(cont.key, ty.OptT):
+            return z3.And(z3.Not(x.isnone), cont.has(ex.coerce(cont.key, x.val, node)))
+        if x is None:
+            return False
         return cont.has(ex.coerce(cont.key, x, node))
     if isinstance(cont, ty.SeqV):
         return seq_contains(ex, st, cont, x, node)
@@ -523,6 +541,14 @@ def get_item(ex, st, cont, idx, node):
         ex.assume_wf(st, cont.elem, v)
         return _out(v, st)
     if isinstance(cont, ty.MapV):
+        if isinstance(idx, ty.OptV) and not isinstance(cont.key, ty.OptT):
+            res = []
+            for taken, s2 in ex.branch(st, idx.isnone, f"nonekey@L{getattr(node, 'lineno', 0)}"):
+                if taken:
+                    res.append(_raise("KeyError", s2, node))
+                else:
+                    res.extend(get_item(ex, s2, cont, idx.val, node))
+            return res
         k = ex.coerce(cont.key, idx, node)
         res = []
         for taken, s2 in ex.branch(st, cont.has(k), f"key@L{getattr(node, 'lineno', 0)}"):
@@ -1073,7 +1099,15 @@ def sv_append(ex, st, recv, args, kwargs, node):
     raise _U("append on a symbolic sequence must go through a name (handled in expr_Call)", node)
 
 
+def _mv(name):
+    def f(ex, st, recv, args, kwargs, node):
+        from . import maplib
+        return getattr(maplib, "mv_" + name)(ex, st, recv, args, kwargs, node)
+    return f
+
+
 VALUE_METHODS = {
+    "MapV": dict(keys=_mv("keys"), values=_mv("values"), items=_mv("items"), get=_mv("get")),
     "PyList": dict(append=pl_append, extend=pl_extend, copy=pl_copy, index=pl_index, sort=pl_sort, pop=pl_pop),
     "PySet": dict(add=ps_add, pop=ps_pop),
     "PyDict": dict(get=pd_get, keys=pd_keys, values=pd_values, items=pd_items),
